@@ -128,7 +128,9 @@ def tlc(spec, cfg, scratch, mode="bfs", workers=None, depth=None, num=None, seed
         cmd += list(extra)
     cmd += [spec + ".tla"]
     env = dict(os.environ)
-    jopts = "-Xss64m"
+    # bound the heap: the tlc wrapper's default is 25% of RAM per JVM, and several TLC runs
+    # in parallel were killed by the memory limit of the sandbox's background runner
+    jopts = "-Xss64m -Xmx%s" % os.environ.get("VERIF_TLC_HEAP", "8g")
     if deque:
         jopts += " -Dtlc2.tool.queue.IStateQueue=StateDeque"
     env["JAVA_TOOL_OPTIONS"] = (env.get("JAVA_TOOL_OPTIONS", "") + " " + jopts).strip()
@@ -421,6 +423,11 @@ class Ctx:
                 unmatched.append(f)
         for kid, (k, n) in sorted(known_hits.items()):
             print("KNOWN-FINDING: property=%s %s [%s, %d cases]" % (self.pid, k["what"], kid, n), flush=True)
+        # every listed open finding of this property gets its line, also when this run's
+        # sample did not happen to exercise it
+        for k in self.known:
+            if k.get("property") == self.pid and k.get("status", "open") == "open" and k["id"] not in known_hits:
+                print("KNOWN-FINDING: property=%s %s [%s, not exercised by this run]" % (self.pid, k["what"], k["id"]), flush=True)
         # confirm unmatched failures, one per distinct signature, at most 6
         violations = []
         sigs = set()
